@@ -133,3 +133,11 @@ def kani(tier):
     if tier != 'thorough': return []
     return [dict(harness='tags_16', oid='C16.k', covers=2, stubs=5, desc='SECOND ENGINE (Kani/CBMC on the compiled code): validate_asset_tags over 16 symbolic slots rejects exactly when a staked position would be mixed with a default-class one (SOL mixes with both)',
                  functions=['marginfi::utils::validate_asset_tags'], bounds='16 slots, active bits and tags (0..=5) symbolic; unwind 34')]
+
+
+
+# ---------------------------------------------------------------- shared with C08.b: the Anchor constraint sets of this property's instructions (signer role, has_one = group, vault / PDA bindings)
+_t_shared_structs = tasks
+def tasks(tier):
+    from specs.C08 import shared_struct_tasks
+    return _t_shared_structs(tier) + shared_struct_tasks('C16.i.', ['MarginfiAccountClose', 'TransferToNewAccount', 'TransferToNewAccountPda', 'LendingAccountCloseBalance'])
